@@ -383,7 +383,14 @@ class ConnectionState:
         cmd_str = str(cmd_type.command, 'ascii').lower()
         return 'do_' + cmd_str
 
-    async def do_command(self, cmd: Command) -> CommandResponse:
+    def check_command(self, cmd: Command) -> CommandResponse | None:
+        """Check that the command is allowed in the current state of the
+        connection. If it is not, the response that refuses it is returned.
+
+        Args:
+            cmd: The command received from the client.
+
+        """
         if isinstance(cmd, InvalidCommand):
             return ResponseBad(cmd.tag, cmd.message)
         elif self._session and isinstance(cmd, CommandNonAuth):
@@ -395,6 +402,12 @@ class ConnectionState:
         elif not self._selected and isinstance(cmd, CommandSelect):
             msg = cmd.command + b': Must select a mailbox first.'
             return ResponseBad(cmd.tag, msg)
+        return None
+
+    async def do_command(self, cmd: Command) -> CommandResponse:
+        refused = self.check_command(cmd)
+        if refused is not None:
+            return refused
         func_name = self._get_func_name(cmd)
         try:
             func: _CommandFunc = getattr(self, func_name)
